@@ -262,7 +262,9 @@ func headerString(f *Func) string {
 		fmt.Fprintf(buf, " partition %s", quote(f.Partition))
 	}
 	if f.Comdat != nil {
-		if f.Comdat.Name == f.Name() {
+		// The comdat name is implicit if it is the name of the function. Note,
+		// f.Name() returns numeric names in quoted form (e.g. `"42"`).
+		if !f.IsUnnamed() && f.Comdat.Name == f.GlobalName {
 			buf.WriteString(" comdat")
 		} else {
 			fmt.Fprintf(buf, " %s", f.Comdat)
